@@ -131,8 +131,11 @@ def r_deleg(f):
                     return is_self_field(x, idx, selfs) or (x[0] == "call" and x[2] == dimname)
                 ok = a1[0] == "bin" and a1[1].startswith("Sub") and const_usize(a1[3]) == 1 and dim_expr(a1[2])
                 via_checked = False
-                if not ok and a1[0] == "field" and a1[2] == 0 and strip(a1[1])[0] == "downcast" and strip(a1[1])[2] == "Some":
+                if not ok and a1[0] == "field" and a1[2] == 0 and strip(a1[1])[0] == "downcast" and strip(a1[1])[2] in ("Some", "Continue"):
                     inner = strip(strip(a1[1])[1])
+                    if strip(a1[1])[2] == "Continue":
+                        # `dim.checked_sub(1)?` in a function returning Option: the Break arm returns None
+                        inner = strip(inner[3][0]) if inner[0] == "call" and inner[2] == "branch" and inner[3] else ("?",)
                     if inner[0] == "call" and inner[2] == "checked_sub" and dim_expr(inner[3][0]) and const_usize(inner[3][1]) == 1:
                         ok = via_checked = True      # Some(i) = dim.checked_sub(1): the None arm is the emptiness guard
                 R.inst(b.ident, "%s(self.%s - 1): index argument is %s" % (want, dimname, show(a1)), ok)
@@ -790,6 +793,10 @@ def r_flat_struct(f):
             fam = ("front", FRONT_OK)
         elif b.name in ("next_back", "nth_back", "rfold"):
             fam = ("back", BACK_OK)
+        elif b.name not in ("size_hint", "last", "len", "count", "num_cols") and b.trait_head in ("Iterator", "DoubleEndedIterator"):
+            # any further override of a provided method (for_each, try_fold, find, min .. / rfind, try_rfold ..) belongs to the
+            # family of the trait that declares it
+            fam = ("front", FRONT_OK | {"try_fold", "for_each", "find", "position", "all", "any", "count"}) if b.trait_head == "Iterator" else ("back", BACK_OK | {"try_rfold", "rfind", "rposition"})
         if fam is None:
             continue
         n += 1
@@ -808,7 +815,7 @@ def r_flat_struct(f):
                 tr = fn.get("trait") or ""
                 if tr in ("core::iter::Iterator", "core::iter::DoubleEndedIterator", "core::iter::ExactSizeIterator") and is_caller_code(fn):
                     nm = fn["name"]
-                    if nm in ("next", "nth", "fold", "next_back", "nth_back", "rfold", "try_fold", "try_rfold", "last", "rev"):
+                    if nm in ("next", "nth", "fold", "next_back", "nth_back", "rfold", "try_fold", "try_rfold", "last", "rev", "for_each", "find", "rfind", "position", "rposition"):
                         if nm not in fam[1]:
                             bad.append((nm, cb.where(t["span"])))
                 # chained std adaptors folded in the wrong direction
